@@ -11,6 +11,7 @@ import (
 	"os/exec"
 	"path/filepath"
 	"runtime"
+	"runtime/pprof"
 	"sort"
 	"strings"
 	"sync"
@@ -32,13 +33,18 @@ type RunFunc func(choose func(*vsched.ChoicePoint) int, trace bool) (Verdict, *v
 
 // Scenario is one closed system (driver + real code + environment) to be explored.
 type Scenario struct {
-	Name        string
-	Desc        string
-	Bound       map[string]int // tier -> deviation bound (-1 = unbounded)
-	Run         RunFunc
-	Prune       bool // state-key pruning allowed for this scenario
-	MinOutcomes int  // vacuity guard: fewer distinct outcomes than this is an ENGINE-ERROR (0 = no guard)
-	Tiers       string
+	Name  string
+	Desc  string
+	Bound map[string]int // tier -> deviation bound (-1 = unbounded)
+	Run   RunFunc
+	Prune bool // state-key pruning allowed for this scenario
+	// SkipExhausted: once the deviation budget of the run is used up, pure scheduling points (vsched.Yield — the running
+	// goroutine stays enabled there, so every alternative costs at least one deviation) are passed without creating a choice
+	// point. Sound: the skipped points have no affordable alternative. Used by the statement-granularity scenarios, where
+	// most points are of that kind. The budget is part of the replay file.
+	SkipExhausted bool
+	MinOutcomes   int // vacuity guard: fewer distinct outcomes than this is an ENGINE-ERROR (0 = no guard)
+	Tiers         string
 }
 
 // Point is a recorded choice point of one execution.
@@ -65,7 +71,24 @@ func (e ReplayDivergence) Error() string { return e.Msg }
 
 // RunOnce executes the scenario following prefix, then default choices.
 func RunOnce(sc *Scenario, prefix []int, sigs []uint64, trace bool) (x *Exec, err error) {
+	return RunOnceBudget(sc, prefix, sigs, trace, -1)
+}
+
+// exhaustedNow is consulted by the scenario's session (vsched.Options.Exhausted) through Exhausted().
+var exhaustedNow func() bool
+
+// Exhausted reports whether the running execution has used up its deviation budget (always false unless the scenario opted in).
+func Exhausted() bool { return exhaustedNow != nil && exhaustedNow() }
+
+// RunOnceBudget is RunOnce with the deviation budget known to the execution (budget < 0: unknown, nothing is skipped).
+func RunOnceBudget(sc *Scenario, prefix []int, sigs []uint64, trace bool, budget int) (x *Exec, err error) {
 	x = &Exec{}
+	spent := 0
+	exhaustedNow = nil
+	if sc.SkipExhausted && budget >= 0 {
+		exhaustedNow = func() bool { return spent >= budget }
+	}
+	defer func() { exhaustedNow = nil }()
 	defer func() {
 		if r := recover(); r != nil {
 			if d, ok := r.(ReplayDivergence); ok {
@@ -90,6 +113,7 @@ func RunOnce(sc *Scenario, prefix []int, sigs []uint64, trace bool) (x *Exec, er
 			}
 		}
 		x.Choices = append(x.Choices, c)
+		spent += cp.Costs[c]
 		return c
 	}
 	v, res := sc.Run(choose, trace)
@@ -160,6 +184,7 @@ type Found struct {
 	Key       string   `json:"key"`
 	Cost      int      `json:"cost"`
 	Hash      uint64   `json:"trace_hash"`
+	Budget    int      `json:"budget"` // deviation budget of the run that found it (matters for SkipExhausted scenarios)
 }
 
 // Job is a unit of work handed to a worker process.
@@ -242,7 +267,7 @@ func (w *walker) record(x *Exec) {
 					sigs[i] = p.Sig
 				}
 				w.found = append(w.found, Found{Scenario: w.sc.Name, Choices: append([]int(nil), x.Choices...), Sigs: sigs,
-					Violation: x.Verdict.Violation, Key: k, Cost: prefixCost(x, len(x.Choices)), Hash: x.Res.TraceHash})
+					Violation: x.Verdict.Violation, Key: k, Cost: prefixCost(x, len(x.Choices)), Hash: x.Res.TraceHash, Budget: w.bound})
 			}
 		}
 	}
@@ -255,7 +280,7 @@ func (w *walker) explore(prefix []int, sigs []uint64, splitOnly bool) (children 
 		w.deferred = append(w.deferred, append([]int(nil), prefix...))
 		return nil
 	}
-	x, err := RunOnce(w.sc, prefix, sigs, false)
+	x, err := RunOnceBudget(w.sc, prefix, sigs, false, w.bound)
 	if err != nil {
 		w.stats.Divergences++
 		w.err = err.Error()
@@ -346,6 +371,12 @@ func findScenario(cfg *Config, name string) *Scenario {
 func Main(cfg *Config) {
 	flag.Parse()
 	if *flagWorker {
+		if pf := os.Getenv("VERIF_CPUPROFILE"); pf != "" {
+			if f, err := os.Create(fmt.Sprintf("%s.%d", pf, os.Getpid())); err == nil {
+				pprof.StartCPUProfile(f)
+				defer pprof.StopCPUProfile()
+			}
+		}
 		workerLoop(cfg)
 		return
 	}
@@ -688,7 +719,7 @@ func coordinate(cfg *Config) int {
 		okReplay := true
 		var last *Exec
 		for i := 0; i < 5; i++ {
-			x, err := RunOnce(sc, f.Choices, f.Sigs, i == 0)
+			x, err := RunOnceBudget(sc, f.Choices, f.Sigs, i == 0, f.Budget)
 			if err != nil || x.Verdict.Key != f.Key || x.Res.TraceHash != f.Hash {
 				okReplay = false
 				engineErrors = append(engineErrors, fmt.Sprintf("%s: violation %q did not replay deterministically (run %d: err=%v key=%q hash=%x want %x)", f.Scenario, f.Key, i, err, x.Verdict.Key, x.Res.TraceHash, f.Hash))
@@ -833,11 +864,16 @@ type replayDoc struct {
 	Key       string   `json:"key"`
 	Trace     []string `json:"trace"`
 	Detail    string   `json:"detail"`
+	Budget    *int     `json:"budget,omitempty"`
 }
 
 func writeReplay(cfg *Config, f *Found, x *Exec) string {
 	os.MkdirAll(*flagReplays, 0o755)
 	doc := replayDoc{Property: cfg.Property, Scenario: f.Scenario, Choices: f.Choices, Sigs: f.Sigs, Violation: f.Violation, Key: f.Key}
+	if sc := findScenario(cfg, f.Scenario); sc != nil && sc.SkipExhausted {
+		b := f.Budget
+		doc.Budget = &b
+	}
 	if x != nil && x.Res != nil {
 		doc.Trace = x.Res.Trace
 		doc.Detail = x.Res.Detail
@@ -875,7 +911,11 @@ func replayFile(cfg *Config, path string) int {
 		fmt.Printf("NOT-IN-THIS-PART unknown scenario %q\n", doc.Scenario)
 		return 3
 	}
-	x, err := RunOnce(sc, doc.Choices, doc.Sigs, true)
+	budget := -1
+	if doc.Budget != nil {
+		budget = *doc.Budget
+	}
+	x, err := RunOnceBudget(sc, doc.Choices, doc.Sigs, true, budget)
 	for _, l := range x.Res.Trace {
 		fmt.Println(l)
 	}
